@@ -96,8 +96,18 @@ NEAR_BASE = [("cx", []), ("cz", []), ("swap", []), ("iswap", []), ("cs", []), ("
              ("csdg", []), ("csxdg", []), ("rzz", [0.7]), ("crx", [1.1]), ("cp", [-0.9]), ("rxx", [math.pi / 2])]
 
 
+# every parametrised family at angles CLOSE TO, but not at, the multiples of pi/2 where the gate degenerates into a fixed gate (cp(pi)=cz,
+# crz(2pi)=z x I, rzz(pi)=z x z, theta=0 ...): distance 1e-6 .. 3e-5, i.e. inside the default tolerance of np.isclose/np.allclose relative to
+# pi but far outside the 1e-9 / 1e-7 of the comparison.  "All real angles" must get an exact basis of THAT angle.
+NEAR_MULT = [1, -1, 3, 2, 0.5, -0.5, 0, 4, -3, 1.5]
+NEAR_DELTA = [-2e-5, 1e-5, 2e-5, -1e-5, 3e-5, -3e-6, 2.5e-5, 1e-6]
+
+
 def _det_cases():
     extra = {"or_exact": True, "always_oracle": True}
+    for i, name in enumerate(FAMS):
+        for j, mult in enumerate(NEAR_MULT if name == "cp" else NEAR_MULT[:6]):
+            yield ("gate", {"gate": name, "params": [mult * math.pi + NEAR_DELTA[(i + j) % len(NEAR_DELTA)]], "always_oracle": True})
     for i, (g_, ps) in enumerate(USERDEF):
         yield ("refuse", {"gate": "userdef:" + g_, "params": ps, "how": "qasm", **extra})
         if i % 2 == 0 or g_ in ("crx", "cry", "crz"):
